@@ -7,6 +7,7 @@ and removed immediately. Three sources:
 A variant whose anchor text is no longer in the tree is skipped (reported), not failed: the tree may legitimately change.
 A variant that applies but is not reported by its rule is a self-test failure (exit 2: the checker is broken).
 """
+import json
 import os
 import shutil
 import subprocess
@@ -87,6 +88,66 @@ CATALOG = [
     ("seed-C20_m1", "seeded", "C20_m1", [("R-RPWIDTH", "RePair::getBits#width")]),
     ("seed-C20_m2", "seeded", "C20_m2", [("R-BACKPTR", "HashRP::insertHash#table-without-kpos")]),
     ("seed-C20_m3", "seeded", "C20_m3", [("R-NARROW", "RePair::save#narrow-terminals")]),
+    # second round of sub-agent mutations
+    ("seed-C02_m5", "seeded", "C02_m5", [("R-BYTEINDEX", "SSA::alphabet#extent-in-SSA::load")]),
+    ("seed-C02_m6", "seeded", "C02_m6", [("R-SENTINEL", "HashBdh::search#narrow-sentinel")]),
+    ("seed-C04_m4", "seeded", "C04_m4", [("R-EXTENT-FM", "SSA::occ"), ("R-EXTENT", "SSA::occ")]),
+    ("seed-C05_m4", "seeded", "C05_m4", [("R-SAMPLECOUNT", "sample-count")]),
+    ("seed-C05_m5", "seeded", "C05_m5", [("R-STALESIZE", "stale-scanneable")]),
+    ("seed-C06_m4", "seeded", "C06_m4", [("R-MIRROR", "SSA::save<->SSA::load")]),
+    ("seed-C06_m6", "seeded", "C06_m6", [("R-MIRROR", "StringDictionaryXBW::save<->StringDictionaryXBW::load")]),
+    ("seed-C07_m4", "seeded", "C07_m4", [("R-EXTENT", "LogSequence::array")]),
+    ("seed-C07_m6", "seeded", "C07_m6", [("R-DANGLING", "double-free-hash")]),
+    ("seed-C08_m4", "seeded", "C08_m4", [("R-TAGSELF", "type-unset")]),
+    ("seed-C08_m5", "seeded", "C08_m5", [("R-ZEROFILL", "consumed-beyond-fill")]),
+    ("seed-C08_m6", "seeded", "C08_m6", [("R-SAVEPURE", "StringDictionaryHTFC::save#write-to-this.textStrings")]),
+    ("seed-C09_m5", "seeded", "C09_m5", [("R-PARAMFLOW", "thread_count-flows-into")]),
+    ("seed-C09_m6", "seeded", "C09_m6", [("R-INITEXTENT", "data-tail-uninitialised")]),
+    ("seed-C10_m4", "seeded", "C10_m4", [("R-CV", "WorkerQueue::add_task#update-of")]),
+    ("seed-C10_m5", "seeded", "C10_m5", [("R-CV", "Worker::set_stopped#update-of")]),
+    ("seed-C10_m6", "seeded", "C10_m6", [("R-DRAIN", "exit-with-queued-tasks:the-loop-condition")]),
+    ("seed-C11_m4", "seeded", "C11_m4", [("R-LOCKSET", "race:WorkerQueue::q")]),
+    ("seed-C11_m6", "seeded", "C11_m6", [("R-SLOT", "task-writes-maxlength"), ("R-LOCKSET", "race:StringDictionary::maxlength")]),
+    ("seed-C13_m4", "seeded", "C13_m4", [("R-IDRANGE", "IteratorDictIDContiguous#range")]),
+    ("seed-C13_m5", "seeded", "C13_m5", [("R-CHUNKINIT", "chunk-extracted")]),
+    ("seed-C14_m4", "seeded", "C14_m4", [("R-REFCOUNT", "no-acquire:E")]),
+    ("seed-C14_m5", "seeded", "C14_m5", [("R-PATTERN", "StringDictionaryHASHRPF::locate#param0-not-restored")]),
+    ("seed-C14_m6", "seeded", "C14_m6", [("R-QUERYPURE", "write-to-this.last_part"), ("R-PURE-BASIC", "write-to-this.last_part")]),
+    ("seed-C15_m5", "seeded", "C15_m5", [("R-MIRROR", "StringDictionaryHASHHF::save<->StringDictionaryHASHHF::load")]),
+    ("seed-C15_m6", "seeded", "C15_m6", [("R-METADATA", "StringDictionaryPFC::StringDictionaryPFC#maxlength")]),
+    ("seed-C16_m4", "seeded", "C16_m4", [("R-TAGS", "StringDictionaryXBW::load#tagcheck")]),
+    ("seed-C16_m5", "seeded", "C16_m5", [("R-TAGS", "StringDictionaryHASHHF::load#tagcheck")]),
+    ("seed-C16_m6", "seeded", "C16_m6", [("R-TAGS", "StringDictionaryFMINDEX::load#tagcheck")]),
+    ("seed-C17_m4", "seeded", "C17_m4", [("R-MIRROR", "BitSequenceRG::save<->cds_static::BitSequenceRG::load")]),
+    ("seed-C17_m5", "seeded", "C17_m5", [("R-SETFIELD", "LogSequence::set_field#store")]),
+    ("seed-C17_m6", "seeded", "C17_m6", [("R-SHIFT", "cds_utils::get_field#shift")]),
+    ("seed-C19_m4", "seeded", "C19_m4", [("R-REFCOUNT", "release-result-dropped:E")]),
+    ("seed-C19_m5", "seeded", "C19_m5", [("R-MIRROR", "BitSequenceRG")]),
+    ("seed-C20_m6", "seeded", "C20_m6", [("R-MIRROR", "LogSequence::save<->LogSequence::LogSequence")]),
+    # behaviour-preserving refactorings (benign/): the named rules must stay silent on them (each once raised a false alarm)
+    ("benign-A_r1", "benign", "A_r1.diff", [("R-EXTENT", None)]),
+    ("benign-A_r4", "benign", "A_r4.diff", [("R-TAGS", None)]),
+    ("benign-A_r5", "benign", "A_r5.diff", [("R-SAMPLECOUNT", None)]),
+    ("benign-A_r9", "benign", "A_r9.diff", [("R-TAGS", None)]),
+    ("benign-B_r5", "benign", "B_r5.diff", [("R-PROBE", None)]),
+    ("benign-B_r7", "benign", "B_r7.diff", [("R-CLAMP", None)]),
+    ("benign-C_r7", "benign", "C_r7.diff", [("R-BACKPTR", None)]),
+    ("benign-D_r4", "benign", "D_r4.diff", [("R-MIRROR", None)]),
+    ("benign-D_r5", "benign", "D_r5.diff", [("R-RESAVE", None)]),
+    ("benign-E_r3", "benign", "E_r3.diff", [("R-PROBE", None)]),
+    ("benign-E_r4", "benign", "E_r4.diff", [("R-RESAVE", None), ("R-SELECTRANGE", None)]),
+    ("benign-E_r8", "benign", "E_r8.diff", [("R-ZEROFILL", None)]),
+    ("benign-E_r10", "benign", "E_r10.diff", [("R-PROBE", None), ("R-ACCEPT", None)]),
+    ("benign-F_r4", "benign", "F_r4.diff", [("R-FMMAP", None)]),
+    ("benign-F_r7", "benign", "F_r7.diff", [("R-ZEROFILL", None)]),
+    ("benign-G_r10", "benign", "G_r10.diff", [("R-RPGAP", None)]),
+    ("benign-G_r11", "benign", "G_r11.diff", [("R-SCANSIGN", None)]),
+    ("benign-H_r1", "benign", "H_r1.diff", [("R-CV", None)]),
+    ("benign-H_r2", "benign", "H_r2.diff", [("R-ONCE", None)]),
+    ("benign-H_r3", "benign", "H_r3.diff", [("R-DRAIN", None)]),
+    ("benign-H_r9", "benign", "H_r9.diff", [("R-SLOT", None), ("R-LOCKSET", None), ("R-WORKERPURE", None)]),
+    ("benign-H_r10", "benign", "H_r10.diff", [("R-PARAMFLOW", None)]),
+    ("benign-H_r11", "benign", "H_r11.diff", [("R-CV", None), ("R-JOIN", None), ("R-LOCKSET", None)]),
     # one-place substitutions for rules nothing above exercises: (file, old, new)
     ("sub-mirror-width", "subst", ("StringDictionaryPFC.cpp", "dict->buckets = loadValue<uint32_t>(in);", "dict->buckets = loadValue<uint64_t>(in);"),
      [("R-MIRROR", "StringDictionaryPFC::save")]),
@@ -148,6 +209,9 @@ CATALOG = [
 ]
 
 
+KNOWN = {(k["rule"], k["key"]) for k in json.load(open(os.path.join(VERIF, "known_findings.json")))["findings"]}
+
+
 def make_scratch():
     d = tempfile.mkdtemp(prefix="csd_selftest_")
     subprocess.run(["rsync", "-a", "--exclude", ".git", "--exclude", "_build", REPO + "/", d + "/"], check=True)
@@ -163,6 +227,10 @@ def apply(entry, scratch):
         return None if r.returncode == 0 else "reverse patch does not apply: " + r.stdout.decode(errors="replace")[-200:]
     if kind == "seeded":
         pf = os.path.join(VERIF, "seeded", src, "patch.diff")
+        r = subprocess.run(["patch", "-p1", "--no-backup-if-mismatch", "-s", "-f", "-d", scratch, "-i", pf], stdout=subprocess.PIPE, stderr=subprocess.STDOUT)
+        return None if r.returncode == 0 else "patch does not apply: " + r.stdout.decode(errors="replace")[-200:]
+    if kind == "benign":
+        pf = os.path.join(VERIF, "benign", src)
         r = subprocess.run(["patch", "-p1", "--no-backup-if-mismatch", "-s", "-f", "-d", scratch, "-i", pf], stdout=subprocess.PIPE, stderr=subprocess.STDOUT)
         return None if r.returncode == 0 else "patch does not apply: " + r.stdout.decode(errors="replace")[-200:]
     if kind == "subst":
@@ -201,6 +269,20 @@ def run_for(pid, rules, only=None):
                 results.append({"variant": eid, "status": "skipped", "reason": "variant does not parse: %s" % str(e)[:200]})
                 continue
             for rn, ks in expect_here:
+                if kind == "benign":
+                    try:
+                        rep = rulebase.run_rule(rn, db)
+                        new_v = [v for v in rep.violations if (v.rule, v.key) not in KNOWN]
+                        broken = len(rep.instances) < rep.expected_min
+                    except AnalysisBroken as e:
+                        new_v, broken = [], True
+                    ok = not new_v and not broken
+                    results.append({"variant": eid, "rule": rn, "expected": "silent", "status": "silent" if ok else "FALSE-ALARM",
+                                    "reported_as": new_v[0].key if new_v else ("instances below floor" if broken else None)})
+                    if not ok:
+                        failed.append("%s: %s raised an alarm on a behaviour-preserving refactoring (%s)" % (
+                            eid, rn, new_v[0].key if new_v else "instances below floor"))
+                    continue
                 rep = rulebase.run_rule(rn, db)
                 hit = [v for v in rep.violations if ks in v.key]
                 results.append({"variant": eid, "rule": rn, "expected_key": ks, "status": "reported" if hit else "NOT-REPORTED",
